@@ -146,16 +146,19 @@ impl Check for AnyDocument {
     }
 }
 
+pub const E2E: super::e2e::EndToEnd = super::e2e::EndToEnd { part: "end-to-end-binary-vs-handler", methods: &["textDocument/foldingRange"] };
+
 pub fn checks() -> Vec<Box<dyn Check>> {
-    vec![Box::new(Extents), Box::new(AnyDocument)]
+    vec![Box::new(Extents), Box::new(AnyDocument), Box::new(E2E)]
 }
 
 pub fn run(ctx: &Ctx) -> i32 {
-    let parts = vec![
+    let mut parts = vec![
         crate::corpus_part(ctx, &checks()),
         run_pbt(ctx, &Extents, ctx.n(30_000, 500_000)),
         run_pbt(ctx, &AnyDocument, ctx.n(15_000, 250_000)),
     ];
+    parts.push(run_pbt(ctx, &E2E, ctx.n(400, 8_000)));
     finish(
         ctx,
         parts,
